@@ -411,21 +411,31 @@ func randomCase(r *corr.Run, sample bool) {
 // Run is the correspondence + oracle driver of area `streampool`.
 func Run(r *corr.Run) {
 	r.SetRule("a case is one pool driven through a generated schedule; it counts as non-trivial when at least two streams existed, at least one broadcast was dropped on a full queue or one stream ended, and at least 8 steps ran")
-	for cp := 1; cp <= 4; cp++ {
-		scriptFill(r, cp, cp%2 == 0, cp >= 3)
+	scripts := []func(){
+		func() { scriptFill(r, 1, false, false) },
+		func() { scriptFill(r, 2, true, false) },
+		func() { scriptFill(r, 3, false, true) },
+		func() { scriptFill(r, 4, true, true) },
+		func() { scriptFill(r, 7, false, true) },
+		func() { scriptFill(r, 0, true, false) }, // default queue size
+		func() { scriptClose(r, 0) },
+		func() { scriptClose(r, 1) },
+		func() { scriptClose(r, 2) },
+		func() { scriptClose(r, 3) },
+		func() { scriptClose(r, 4) },
+		func() { scriptMultiPeer(r, true) },
+		func() { scriptMultiPeer(r, false) },
+		func() { scriptDial(r, 1, 1) },
+		func() { scriptDial(r, 2, 2) },
+		func() { scriptDial(r, 1, 3) },
 	}
-	scriptFill(r, 7, false, true)
-	scriptFill(r, 0, true, false) // default queue size
-	for how := 0; how <= 4; how++ {
-		scriptClose(r, how)
+	for _, sc := range scripts {
+		if r.Issues() < 3 {
+			sc()
+		}
 	}
-	scriptMultiPeer(r, true)
-	scriptMultiPeer(r, false)
-	scriptDial(r, 1, 1)
-	scriptDial(r, 2, 2)
-	scriptDial(r, 1, 3)
 	max := r.Pick(9000, 400000)
-	for i := 0; i < max && r.TimeLeft() && r.Issues() < 5; i++ {
+	for i := 0; i < max && r.TimeLeft() && r.Issues() < 3; i++ {
 		randomCase(r, i%7 == 0)
 	}
 }
